@@ -1,0 +1,33 @@
+//go:build verif
+
+package authority
+
+//@ # ---- C08: the delegation cache stores an absolute deadline, never later than the one it was given, never later
+//@ # than twelve hours from the write, never already past; an entry at or past its deadline is invisible to Get
+//@
+//@ # the injectable clock: assumed to behave like time.Now (no effect on cache state, a reading of the clock)
+//@ func field Cache.now
+//@   trusted
+//@   modifies nothing
+//@   ensures clock(result)
+//@
+//@ func (*Cache).store
+//@   requires n != nil
+//@   assert at call (*internal/cache.Cache).Add#1: arg1 == key && dyntype(arg2, *Delegation) && as(arg2, *Delegation) != nil && as(arg2, *Delegation).ExpiresAt == expiresAt && as(arg2, *Delegation).Servers == servers && as(arg2, *Delegation).DSSet == dsSet
+//@
+//@ func (*Cache).SetUntil
+//@   requires n != nil && real(expiresAt)
+//@   assert at call (*internal/authority.Cache).store#1: arg1 == key && arg2 == dsSet && arg3 == servers
+//@   assert at call (*internal/authority.Cache).store#1: inst(arg4) <= inst(expiresAt) && inst(arg4) <= inst(lastret("field internal/authority.Cache.now")) + 43200000000000 && inst(arg4) > inst(lastret("field internal/authority.Cache.now"))
+//@   ensures calls("(*internal/authority.Cache).store") <= 1 && calls("field internal/authority.Cache.now") == 1
+//@
+//@ func (*Cache).Set
+//@   requires n != nil
+//@   assert at call (*internal/authority.Cache).store#1: arg1 == key && arg2 == dsSet && arg3 == servers && ttl > 0
+//@   assert at call (*internal/authority.Cache).store#1: inst(arg4) <= inst(lastret("field internal/authority.Cache.now")) + ttl && inst(arg4) <= inst(lastret("field internal/authority.Cache.now")) + 43200000000000
+//@
+//@ func (*Cache).Get
+//@   requires n != nil
+//@   note table-content invariant: every value written to the table is a non-nil *Delegation (proved at the only write site, store); assumed where it is read back
+//@   assume at after call (*internal/cache.Cache).Get#1: result1 ==> dyntype(result0, *Delegation) && as(result0, *Delegation) != nil
+//@   ensures result1 == nil ==> result0 != nil && inst(lastret("field internal/authority.Cache.now")) < inst(result0.ExpiresAt)
